@@ -293,10 +293,15 @@ def band_curve(draw, nk, center, rlo, rhi, cw=False):
     and containment must come from the curve, not from the control points."""
     snap = draw(snapper(nk if nk != "mixed" else "frac"))[0]
     R = rlo + (rhi - rlo) * draw(st.floats(0.2, 1.0))
-    r = R * draw(st.sampled_from([0.8, 0.9]))
-    hc = R * draw(st.sampled_from([1.5, 1.7, 1.8]))
+    # (r, hc) pairs checked numerically: simple curve, gap between the arches
+    # >= 0.04 R, area > 0, and for the last three a control polygon of
+    # *negative* area
+    r, hc = draw(st.sampled_from([(0.8, 1.6), (0.8, 1.8), (0.9, 1.8), (0.95, 1.7), (0.9, 1.75)]))
+    r, hc = r * R, hc * R
     rot = draw(st.integers(0, 3))
-    raw = [[(R, 0.0), (R / 2, R), (0.0, R)], [(0.0, R), (-R / 2, R), (-R, 0.0)], [(-R, 0.0), (-r, 0.0)],
+    # (the two outer arcs must not be the two halves of one parabola: clean()
+    # would legitimately merge them)
+    raw = [[(R, 0.0), (0.55 * R, 1.1 * R), (0.0, R)], [(0.0, R), (-0.45 * R, 0.95 * R), (-R, 0.0)], [(-R, 0.0), (-r, 0.0)],
            [(-r, 0.0), (0.0, hc), (r, 0.0)], [(r, 0.0), (R, 0.0)]]
 
     def place(p):
